@@ -9,6 +9,7 @@ import (
 	"encoding/json"
 	"fmt"
 	"os"
+	"runtime"
 	"runtime/debug"
 	"strconv"
 	"strings"
@@ -207,8 +208,11 @@ func TempDir() string {
 
 var tempDirs []string
 
+var origProcs = runtime.GOMAXPROCS(0)
+
 func runOne(c replayCase, fn func()) (res result) {
 	res = result{ID: c.ID, Harness: c.Harness}
+	runtime.GOMAXPROCS(origProcs)
 	defer func() {
 		mu.Lock()
 		ds := tempDirs
